@@ -96,7 +96,12 @@ func NewGen(w *World, seed uint64, profile string) *Gen {
 		}
 		g.setup = append(g.setup, op)
 	}
-	for _, i := range g.Nodes {
+	for k, i := range g.Nodes {
+		// now and then a provider goes online and accepts orders without ever pledging capacity: selection must pass it over
+		// (seeded change C15-9 let such a node into the candidate list)
+		if k > 1 && (profile == "main" || profile == "timeouts") && g.R.Chance(20) {
+			continue
+		}
 		sz := uint64(1_000_000 * (1 + g.R.Intn(20)))
 		if g.R.Chance(30) {
 			sz += uint64(g.R.Intn(3)) - 1
